@@ -51,6 +51,13 @@ func newMgrRig(t fataler, self peer.ID, ds *dbl.RecDatastore, types ...datatrans
 	return r
 }
 
+// newMgrRigOpts is newMgrRig with manager options (e.g. the channel monitor configuration).
+func newMgrRigOpts(t fataler, self peer.ID, ds *dbl.RecDatastore, opts []dtimpl.DataTransferOption, types ...datatransfer.TypeIdentifier) *mgrRig {
+	r := &mgrRig{t: t, self: self, ds: ds, tr: dbl.NewTransport(), net: dbl.NewNetwork(self), pub: newPubLog(), vals: map[datatransfer.TypeIdentifier]*dbl.Validator{}, opts: opts}
+	r.start(types)
+	return r
+}
+
 func bg() context.Context { return context.Background() }
 
 func wctx() (context.Context, context.CancelFunc) {
